@@ -1,8 +1,8 @@
 SPECIFICATION Spec
 CONSTANTS
   MaxTok = 4
-  NTok = 16
-  NBase = 4
+  NTok = 15
+  NBase = 3
   EmitB = TRUE
 INVARIANTS Terminates ResultOk AgreesWithRun EmitBehaviour
 PROPERTY PointerMonotone
